@@ -261,13 +261,23 @@ func (fw *FileWriter) flushLocked() error {
 		return nil // Nothing to flush
 	}
 
+	// Remember where this block starts: if the disk rejects or only partially performs one
+	// of the two writes below, the file must not keep a torn block in the middle (the
+	// reader would stop there and every block appended later would be hidden).
+	blockStart, err := fw.file.Seek(0, io.SeekCurrent)
+	if err != nil {
+		return err
+	}
+
 	// Write block header
 	if _, err := fw.file.Write(header.Serialize()); err != nil {
+		fw.discardPartialBlock(blockStart)
 		return err
 	}
 
 	// Write compressed data
 	if _, err := fw.file.Write(compressed); err != nil {
+		fw.discardPartialBlock(blockStart)
 		return err
 	}
 
@@ -295,6 +305,14 @@ func (fw *FileWriter) flushLocked() error {
 	}
 
 	return nil
+}
+
+// discardPartialBlock cuts the file back to the start of a block whose write failed and
+// puts the append position there again. Best effort: the original write error is what the
+// caller reports.
+func (fw *FileWriter) discardPartialBlock(blockStart int64) {
+	_ = fw.file.Truncate(blockStart)
+	_, _ = fw.file.Seek(blockStart, io.SeekStart)
 }
 
 // Sync flushes the buffer and syncs to disk
